@@ -81,8 +81,11 @@ struct IoFault : Profile {
         };
         if (t < 4)
             sd("sdnew", t, -1); // plain, unlimited, chunked, deflate
-        else if (t < 9)
+        else if (t < 9) {
+            if (t == 8) // two datasets in one external file: the second one opens a file that exists already
+                ops.push_back(mkop(0, "sdnew2", {1, 1, 3, 2, 0, ds2, 0, 4}));
             sd("sdnew2", 0, t - 4); // chunked+deflate, RLE, skipping Huffman, n-bit, external
+        }
         else if (t == 9 || t == 10) {
             int64_t lk = t == 9 ? 1 : 0;
             if (lk)
